@@ -207,6 +207,22 @@ def build() -> Check:
         raise AnalysisError("ExecutionState(...) construction not found in the wrapper")
     rs = next((k.value for k in ctor[0].keywords if k.arg == "replay_status"), None)
     txt = ast.unparse(rs) if rs is not None else ""
+    # follow local variables (transitively) that feed the decision
+    if rs is not None:
+        seen_names: set[str] = set()
+        frontier = {n.id for n in ast.walk(rs) if isinstance(n, ast.Name)}
+        for _ in range(5):
+            nxt = set()
+            for st_ in ast.walk(wrapper.node):
+                if isinstance(st_, (ast.Assign, ast.AnnAssign)) and st_.value is not None:
+                    tg_ = st_.target if isinstance(st_, ast.AnnAssign) else st_.targets[0]
+                    if isinstance(tg_, ast.Name) and tg_.id in frontier and tg_.id not in seen_names:
+                        seen_names.add(tg_.id)
+                        txt += f" ; {tg_.id} := " + ast.unparse(st_.value)
+                        nxt |= {n.id for n in ast.walk(st_.value) if isinstance(n, ast.Name)}
+            frontier = nxt - seen_names
+            if not frontier:
+                break
     mergers_after = False
     import re
     ok = rs is not None and ("next_marker" in txt or re.search(r"(?<![A-Za-z_])execution_state\.operations", txt) is not None)
